@@ -1850,7 +1850,9 @@ def check(run):
     run.rule('R16', r16_text_index_in_range, 'an integer index x[0] / x[-1] / x[k] into header text only where the text is known long enough '
              '(every function R1 examines; discharges "in-range subscripts are total")', floor=14)
     run.rule('R17', r17_content_length_sign, 'content_length refuses exactly the negative values (sign partition of the converted header, both stacks)', floor=4)
-    run.rule('R18', r18_cookie_unquote_guard, 'the hoisted test in front of _unquote() holds for every DQUOTE-wrapped cookie value with something between the quotes', floor=1)
+    run.rule('R18', r18_cookie_unquote_guard, 'the hoisted test in front of _unquote() holds for every DQUOTE-wrapped cookie value (length 2 upward)', floor=1)
+    run.rule('R19', r19_url_composition, 'uri / forwarded_uri / relative_uri / prefix / forwarded_prefix: every stored value is the tabled ordered '
+             'concatenation of components on every path (a sibling\'s memoised value stands for its components: no dependence on the read order)', floor=6)
 
 
 # ---------------------------------------------------------------------------
@@ -2439,10 +2441,9 @@ def r17_content_length_sign(run):
 COOKIE_PARSER = 'falcon.request_helpers._parse_cookie_header'
 COOKIE_UNQUOTE = 'http.cookies._unquote'
 # quoted cookie-value = DQUOTE *octet DQUOTE (RFC 6265 4.1.1; http.cookies._unquote strips the pair from any text of length >= 2
-# that starts and ends with DQUOTE).  Cell NOT judged, one reason: the unmodified tree keeps `n=""` (length 2, nothing between the
-# quotes) as the two quote characters -- pre-existing deviation from the stdlib reading, not introduced by any seed; it is
-# recorded in the evidence and becomes an obligation when listed as a known finding.
-_COOKIE_UNJUDGED_LENGTHS = {2: 'empty quoted string `""`: read as two quote characters on the unmodified tree (pre-existing)'}
+# that starts and ends with DQUOTE).  Every length from 2 upward is judged: `n=""` (length 2, nothing between the quotes) reads ''
+# like the stdlib does (the tree's own deviation on that cell was fixed); the table stays for a future cell with its one reason.
+_COOKIE_UNJUDGED_LENGTHS: Dict[int, str] = {}
 
 
 def r18_cookie_unquote_guard(run):
@@ -2450,7 +2451,8 @@ def r18_cookie_unquote_guard(run):
     _unquote()"): it must hold for every value _unquote would change, i.e. for every length >= 2 with a DQUOTE first and
     last.  The dominating tests about the value are evaluated on the cells length {0, 1, 2, 3, ... up to two past the
     largest constant} x first character is DQUOTE x last character is DQUOTE (length 1: one character, both or neither).
-    W: `Cookie: n="x"` (what set_cookie('n', '=') produces, echoed back) is read as the three characters `"="`."""
+    W: `Cookie: n="x"` (what set_cookie('n', '=') produces, echoed back) is read as the three characters `"="`;
+    `Cookie: n=""` (length 2) is read as the two quote characters instead of ''."""
     from .c09_helpers import ReachingDefs, branch_facts, node_of, resolves_to
     p = run.project
     f = p.func(COOKIE_PARSER)
@@ -2552,7 +2554,7 @@ def r18_cookie_unquote_guard(run):
                 (unjudged if ln in _COOKIE_UNJUDGED_LENGTHS else missed).append(ln)
         n_ob += 1
         guard = ' and '.join(('%s' if o else 'not (%s)') % short(t, 80) for (t, o) in facts) or '<unconditional>'
-        run.check(not missed, 'a DQUOTE-wrapped cookie value of every length from 3 to %d (two past the largest constant of the guard) reaches %s: '
+        run.check(not missed, 'a DQUOTE-wrapped cookie value of every length from 2 to %d (two past the largest constant of the guard) reaches %s: '
                   'the hoisted guard is not stricter than the callee\'s own' % (top, COOKIE_UNQUOTE), f, guard, where=f.loc(call),
                   witness=['length %d (%d character(s) between the quotes): kept with its quotes' % (ln, ln - 2) for ln in missed] or None,
                   runtime_witness='Cookie: n="x" -> req.cookies[\'n\'] == \'"x"\'; set_cookie(\'n\', \'=\') echoed back reads \'"="\'')
@@ -2568,3 +2570,311 @@ class _IndexOnEmpty(Exception):
 def _ev_and_order(ev, t, ln):
     """a quoted value of length ln >= 2: first and last characters are DQUOTE"""
     return ev(t, ln, True, True)
+
+
+# ---------------------------------------------------------------------------
+# R19 URL composition table: every composed accessor is the ordered concatenation of its tabled components
+# ---------------------------------------------------------------------------
+
+# leaves of the composition (accessors that are NOT themselves concatenations of other leaves of this table)
+_URL_LEAVES = ('scheme', 'netloc', 'host', 'root_path', 'path', 'query_string', 'forwarded_scheme', 'forwarded_host')
+_Q = 'query_string'
+# composed accessor -> (ordered components when the query string is non-empty, reason).  When the query string is empty the
+# trailing `'?' + query_string` is absent (PEP 3333 "URL Reconstruction": `if QUERY_STRING: url += '?' + QUERY_STRING`).
+_REL = ('root_path', 'path', "'?'", _Q)
+_URL_TABLE = {
+    'relative_uri': (_REL, 'docstring: path and query string portion, omitting scheme and host; PEP 3333: SCRIPT_NAME + PATH_INFO [+ ? + QUERY_STRING]'),
+    'uri': (('scheme', "'://'", 'netloc') + _REL, 'PEP 3333 URL reconstruction: scheme://host[:port] + SCRIPT_NAME + PATH_INFO [+ ? + QUERY_STRING]'),
+    'forwarded_uri': (('forwarded_scheme', "'://'", 'forwarded_host') + _REL, 'docstring: the original URI rebuilt from forwarded_scheme and forwarded_host'),
+    'prefix': (('scheme', "'://'", 'netloc', 'root_path'), 'docstring: scheme, host and app root_path'),
+    'forwarded_prefix': (('forwarded_scheme', "'://'", 'forwarded_host', 'root_path'), 'docstring: prefix of the original URI from forwarded_scheme and forwarded_host'),
+}
+
+
+class _SlotUnset(Exception):
+    def __init__(self, node):
+        Exception.__init__(self)
+        self.node = node
+
+
+def _url_expected(name: str, has_query: bool) -> List[str]:
+    comp = list(_URL_TABLE[name][0])
+    if not has_query and comp[-2:] == ["'?'", _Q]:
+        comp = comp[:-2]
+    return comp
+
+
+def _url_norm(tokens: List[str]) -> List[str]:
+    """adjacent string constants merged, empty constants dropped"""
+    out: List[str] = []
+    for t in tokens:
+        if t.startswith("'"):
+            if t == "''":
+                continue
+            if out and out[-1].startswith("'"):
+                out[-1] = out[-1][:-1] + t[1:]
+                continue
+        out.append(t)
+    return out
+
+
+def _slot_nonnull(test, truth: bool) -> Set[str]:
+    """memo slots `self._cached_Y` this branch outcome proves to hold a value (not None)"""
+    if isinstance(test, ast.UnaryOp) and isinstance(test.op, ast.Not):
+        return _slot_nonnull(test.operand, not truth)
+    if isinstance(test, ast.BoolOp):
+        if (isinstance(test.op, ast.And) and truth) or (isinstance(test.op, ast.Or) and not truth):
+            out: Set[str] = set()
+            for v in test.values:
+                out |= _slot_nonnull(v, truth)
+            return out
+        return set()
+    if isinstance(test, ast.Compare) and len(test.ops) == 1 and isinstance(test.comparators[0], ast.Constant) \
+            and test.comparators[0].value is None and isinstance(test.left, ast.Attribute) and test.left.attr.startswith(PREFIX) \
+            and isinstance(test.left.value, ast.Name) and test.left.value.id == 'self':
+        if (isinstance(test.ops[0], ast.IsNot) and truth) or (isinstance(test.ops[0], ast.Is) and not truth):
+            return {test.left.attr}
+        return set()
+    if truth and isinstance(test, ast.Attribute) and test.attr.startswith(PREFIX) and isinstance(test.value, ast.Name) and test.value.id == 'self':
+        return {test.attr}
+    return set()
+
+
+class _UrlEval:
+    """per-path reading of one composed accessor in one world (query string empty / non-empty)"""
+
+    def __init__(self, p, cq: str, f: Func, owner: str, has_query: bool):
+        self.p, self.cq, self.f, self.owner, self.has_query = p, cq, f, owner, has_query
+        self.mem = effective_members(p, cq)
+        self.slot = PREFIX + owner
+        self.stores = []      # (store stmt, origin expr, tokens | _SlotUnset)
+
+    # -- expressions ---------------------------------------------------------
+    def member_tokens(self, name: str, node, depth: int) -> List[str]:
+        if name in _URL_LEAVES:
+            if name == _Q and not self.has_query:
+                return []
+            return [name]
+        m = self.mem.get(name)
+        if m is None:
+            raise UnknownIdiom('%s: operand %s of the composition is not a member of %s' % (self.f.qual, short(node, 60), self.cq))
+        # an alias of a composed accessor (url = uri) / the accessor itself: its tabled composition (the sibling has its own obligation)
+        for comp in _URL_TABLE:
+            cm = self.mem.get(comp)
+            if cm is not None and cm.func is not None and m.func is cm.func:
+                return _url_expected(comp, self.has_query)
+        # a delegating property (`app`: return self.root_path): read through it
+        g = m.func
+        if g is not None and depth < 4 and getattr(m, 'kind', '') in ('property', 'alias'):
+            body = [s for s in g.node.body if not (isinstance(s, ast.Expr) and isinstance(s.value, ast.Constant))]
+            if len(body) == 1 and isinstance(body[0], ast.Return) and body[0].value is not None \
+                    and isinstance(body[0].value, ast.Attribute) and isinstance(body[0].value.value, ast.Name) and body[0].value.value.id == 'self':
+                return self.member_tokens(body[0].value.attr, node, depth + 1)
+        raise UnknownIdiom('%s: operand %s of the composition is neither a tabled component nor a composed accessor' % (self.f.qual, short(node, 60)))
+
+    def ev(self, e, env, nonnull) -> List[str]:
+        if isinstance(e, ast.Constant) and isinstance(e.value, str):
+            return ["'%s'" % e.value]
+        if isinstance(e, ast.BinOp) and isinstance(e.op, ast.Add):
+            return self.ev(e.left, env, nonnull) + self.ev(e.right, env, nonnull)
+        if isinstance(e, ast.JoinedStr):
+            out: List[str] = []
+            for v in e.values:
+                if isinstance(v, ast.FormattedValue):
+                    if v.conversion != -1 or v.format_spec is not None:
+                        raise UnknownIdiom('%s: formatted value %s' % (self.f.qual, short(v, 60)))
+                    out += self.ev(v.value, env, nonnull)
+                else:
+                    out += self.ev(v, env, nonnull)
+            return out
+        if isinstance(e, ast.Call) and isinstance(e.func, ast.Attribute) and e.func.attr == 'join' and isinstance(e.func.value, ast.Constant) \
+                and isinstance(e.func.value.value, str) and len(e.args) == 1 and not e.keywords and isinstance(e.args[0], (ast.Tuple, ast.List)) \
+                and not any(isinstance(x, ast.Starred) for x in e.args[0].elts):
+            out = []
+            for i, x in enumerate(e.args[0].elts):
+                if i:
+                    out += self.ev(e.func.value, env, nonnull)
+                out += self.ev(x, env, nonnull)
+            return out
+        if isinstance(e, ast.IfExp):
+            truth = self.q_truth(e.test, env, nonnull)
+            if truth is None:
+                raise UnknownIdiom('%s: conditional operand %s' % (self.f.qual, short(e, 80)))
+            return self.ev(e.body if truth else e.orelse, env, nonnull)
+        if isinstance(e, ast.Name):
+            if e.id not in env:
+                raise UnknownIdiom('%s: operand %s is not a local bound on this path' % (self.f.qual, e.id))
+            v = env[e.id][0]
+            if isinstance(v, Exception):
+                raise v
+            return list(v)
+        if isinstance(e, ast.Attribute) and isinstance(e.value, ast.Name) and e.value.id == 'self':
+            if e.attr.startswith(PREFIX):
+                other = e.attr[len(PREFIX):]
+                if other not in _URL_TABLE or e.attr == self.slot:
+                    raise UnknownIdiom('%s: memo slot %s as an operand of the composition' % (self.f.qual, e.attr))
+                if e.attr not in nonnull:
+                    raise _SlotUnset(e)
+                return _url_expected(other, self.has_query)
+            return self.member_tokens(e.attr, e, 0)
+        raise UnknownIdiom('%s: operand %s of the URL composition has a shape this rule cannot read' % (self.f.qual, short(e, 80)))
+
+    def q_truth(self, test, env, nonnull) -> Optional[bool]:
+        """outcome of a test that speaks about the query string only (None: about something else)"""
+        def is_q(x):
+            if isinstance(x, ast.Attribute) and x.attr == _Q and isinstance(x.value, ast.Name) and x.value.id == 'self':
+                return True
+            return isinstance(x, ast.Name) and x.id in env and env[x.id][2]
+        if is_q(test):
+            return self.has_query
+        if isinstance(test, ast.UnaryOp) and isinstance(test.op, ast.Not):
+            r = self.q_truth(test.operand, env, nonnull)
+            return None if r is None else (not r)
+        if isinstance(test, ast.Compare) and len(test.ops) == 1 and is_q(test.left) and isinstance(test.comparators[0], ast.Constant) \
+                and test.comparators[0].value == '' and isinstance(test.ops[0], (ast.Eq, ast.NotEq)):
+            return (not self.has_query) if isinstance(test.ops[0], ast.Eq) else self.has_query
+        if any(is_q(x) for x in walk_self(test)):
+            raise UnknownIdiom('%s: test %s mixes the query string with other conditions' % (self.f.qual, short(test, 80)))
+        return None
+
+    # -- paths ---------------------------------------------------------------
+    def run(self, cfg):
+        # env: local -> (tokens | exception to raise on use, origin expr, is the bare query string)
+        stack = [(cfg.entry, {}, frozenset(), frozenset())]
+        steps = 0
+        while stack:
+            nid, env, nonnull, onpath = stack.pop()
+            steps += 1
+            if steps > 4000:
+                raise UnknownIdiom('%s: too many paths' % self.f.qual)
+            if nid in onpath:
+                raise UnknownIdiom('%s: a loop in a composed URL accessor' % self.f.qual)
+            n = cfg.node(nid)
+            onpath2 = onpath | {nid}
+            if n.kind in ('iter', 'with', 'handler'):
+                raise UnknownIdiom('%s: %s in a composed URL accessor' % (self.f.qual, n.text()))
+            if n.kind == 'stmt':
+                env = self.stmt(n.ast, env, nonnull)
+            for (j, lab) in cfg.succ.get(nid, []):
+                if lab == 'exc':
+                    continue
+                nn = nonnull
+                if n.kind == 'test' and lab in ('T', 'F'):
+                    t = self.q_truth(n.ast, env, nonnull)
+                    if t is not None and t != (lab == 'T'):
+                        continue
+                    nn = nonnull | _slot_nonnull(n.ast, lab == 'T')
+                stack.append((j, env, nn, onpath2))
+
+    def stmt(self, a, env, nonnull):
+        if isinstance(a, (ast.Assign, ast.AnnAssign)):
+            tgs = a.targets if isinstance(a, ast.Assign) else [a.target]
+            if a.value is None:
+                return env
+            stores = [t for t in tgs if is_self_attr(t, self.slot)]
+            names = [t for t in tgs if isinstance(t, ast.Name)]
+            if len(stores) + len(names) != len(tgs):
+                if any(isinstance(x, ast.Attribute) and x.attr == self.slot for t in tgs for x in walk_self(t)):
+                    raise UnknownIdiom('%s: store shape %s' % (self.f.qual, short(a, 80)))
+                names_killed = [x.id for t in tgs for x in walk_self(t) if isinstance(x, ast.Name) and isinstance(x.ctx, ast.Store)]
+                env = dict(env)
+                for nm in names_killed:
+                    env[nm] = (UnknownIdiom('%s: local %s bound by %s' % (self.f.qual, nm, short(a, 60))), a.value, False)
+                return env
+            origin = a.value
+            if isinstance(a.value, ast.Name) and a.value.id in env:
+                origin = env[a.value.id][1]
+            try:
+                val = self.ev(a.value, env, nonnull)
+            except _SlotUnset as e:
+                val = e
+            except UnknownIdiom as e:
+                if stores:
+                    raise
+                val = e
+            if stores:
+                self.stores.append((a, origin, val))
+            if names:
+                env = dict(env)
+                is_q = is_self_attr(a.value, _Q) or (isinstance(a.value, ast.Name) and a.value.id in env and env[a.value.id][2])
+                for t in names:
+                    env[t.id] = (val, origin, is_q)
+            return env
+        if isinstance(a, ast.AugAssign):
+            if isinstance(a.target, ast.Name) and isinstance(a.op, ast.Add):
+                env = dict(env)
+                try:
+                    val = self.ev(a.target, env, nonnull) + self.ev(a.value, env, nonnull)
+                except (_SlotUnset, UnknownIdiom) as e:
+                    val = e
+                env[a.target.id] = (val, a, False)
+                return env
+            if any(isinstance(x, ast.Attribute) and x.attr == self.slot for x in walk_self(a.target)):
+                raise UnknownIdiom('%s: in-place update %s of the memo slot' % (self.f.qual, short(a, 80)))
+            return env
+        if isinstance(a, (ast.Return, ast.Expr, ast.Pass, ast.Raise, ast.Assert)):
+            return env
+        raise UnknownIdiom('%s: statement %s in a composed URL accessor' % (self.f.qual, short(a, 80)))
+
+
+def r19_url_composition(run):
+    """uri / forwarded_uri / relative_uri / prefix / forwarded_prefix are concatenations of a fixed, ordered list of components
+    (table _URL_TABLE, one reason each).  Every value stored into the accessor's memo slot is read per path as the flattened
+    operand list of its `+` / ''.join / f-string (locals followed along the path; another composed accessor -- or its memo
+    slot, which by R2 holds that accessor's value once a test has shown it is not None -- stands for ITS tabled components) and
+    must equal the tabled list, in both worlds query string empty / non-empty, on EVERY path: a shortcut that builds on a
+    sibling's memoised value is judged like any other composition, so the value cannot depend on which accessor was read first.
+    A memo slot of a sibling read where it may still be None is a violation too (None + str).
+    W: SCRIPT_NAME=/api, read req.prefix then req.uri -> 'http://host/api/api/orders' (prefix ends with the mount point,
+    relative_uri starts with it); read in the other order the answer is right."""
+    p = run.project
+    done = set()
+    n_ob = 0
+    for cq in (WSGI_REQ, ASGI_REQ):
+        mem = effective_members(p, cq)
+        init = p.lookup_method(cq, '__init__')
+        inst = {t.attr for n in (walk_no_nested(init.node) if init is not None else ()) if isinstance(n, (ast.Assign, ast.AnnAssign))
+                for t in (n.targets if isinstance(n, ast.Assign) else [n.target]) if isinstance(t, ast.Attribute) and is_self_attr(t, t.attr)}
+        for leaf in _URL_LEAVES:
+            if leaf not in mem and leaf not in inst:
+                raise AnchorError('%s has neither a member nor a constructor-set attribute `%s`' % (cq, leaf))
+        for owner in sorted(_URL_TABLE):
+            m = mem.get(owner)
+            if m is None or m.func is None:
+                raise AnchorError('%s: composed accessor `%s` not found' % (cq, owner))
+            f = m.func
+            if f.qual in done:
+                continue
+            done.add(f.qual)
+            sentinel = _sentinel(p, cq, PREFIX + owner)
+            if not (isinstance(sentinel, ast.Constant) and sentinel.value is None):
+                raise UnknownIdiom('%s: the memo slot %s%s does not start as None' % (f.qual, PREFIX, owner))
+            cfg = cfg_of(f, p)
+            run.use_cfg(cfg)
+            sites: Dict[tuple, dict] = {}
+            for has_query in (True, False):
+                ue = _UrlEval(p, cq, f, owner, has_query)
+                ue.run(cfg)
+                if not ue.stores:
+                    raise UnknownIdiom('%s: no store into self.%s%s found on any path (query string %s)' % (
+                        f.qual, PREFIX, owner, 'present' if has_query else 'empty'))
+                for stmt, origin, val in ue.stores:
+                    s = sites.setdefault((id(stmt), id(origin)), {'stmt': stmt, 'origin': origin, 'bad': [], 'unset': None})
+                    if isinstance(val, _SlotUnset):
+                        s['unset'] = val.node
+                        continue
+                    got, exp = _url_norm(val), _url_norm(_url_expected(owner, has_query))
+                    if got != exp:
+                        s['bad'].append('query string %s: composes %s; tabled: %s' % ('present' if has_query else 'empty', ' + '.join(got) or "''", ' + '.join(exp)))
+            for s in sites.values():
+                n_ob += 1
+                if s['unset'] is not None:
+                    run.fail('%s reads the memo slot %s of a sibling accessor where it may still be None' % (owner, short(s['unset'])), f, s['origin'],
+                             where=f.loc(s['stmt']), runtime_witness='first read of req.%s on a fresh request: None + str -> TypeError (a 500)' % owner)
+                    continue
+                run.check(not s['bad'], 'req.%s is composed of exactly %s on this path (%s)' % (owner, ' + '.join(_URL_TABLE[owner][0]), _URL_TABLE[owner][1]),
+                          f, s['origin'], where=f.loc(s['stmt']), witness=s['bad'] or None,
+                          runtime_witness='SCRIPT_NAME=/api: req.prefix read before req.%s -> the mount point appears twice (http://host/api/api/orders); '
+                                          'the value depends on which accessor was read first and is then memoised' % owner)
+    run.extra['c09_r19'] = {'accessors': sorted(done), 'store_sites': n_ob}
+    return n_ob
